@@ -305,6 +305,9 @@ class KindInterp:
         r = self.table.resolve(cls, name)
         if r is None or not isinstance(r.node, (ast.FunctionDef, ast.Lambda)):
             return Unknown(f'{cls.name}.{name} does not resolve')
+        static = isinstance(r.node, ast.FunctionDef) and any(isinstance(d, ast.Name) and d.id == 'staticmethod' for d in r.node.decorator_list)
+        if static:
+            return self.call_fn(Fn(r.node, {}, owner=r.owner), args, {}, r.node)
         return self.call_fn(Fn(r.node, {}, self_obj=Obj(cls), owner=r.owner), args, {}, r.node)
 
     # -------------------------------------------------------------- calls
